@@ -642,10 +642,9 @@ class Plucker(SMUserList):
         """
         l1 = self
         if l1^l2:
-            # lines do intersect
-            return -(np.dot(l1.v, l2.w) * np.eye(3, 3) + \
-                  l1.w.reshape((3,1)) @ l2.v.reshape((1,3)) - \
-                  l2.w.reshape((3,1)) @ l1.v.reshape((1,3))) * base.unitvec(np.cross(l1.w, l2.w))
+            # lines do intersect, the foot of the common perpendicular on l1 is the point
+            n = np.cross(l1.uw, l2.uw)
+            return l1.pp + np.dot(np.cross(l2.pp - l1.pp, l2.uw), n) / np.dot(n, n) * l1.uw
         else:
             # lines don't intersect
             return None
